@@ -70,7 +70,7 @@ def main(argv=None):
         rc = run(args.prop, args.tier, args.root, args.evidence_dir)
         if rc == 0 and args.tier == "thorough":
             from . import selfval
-            rc = selfval.run(args.prop, args.root)
+            rc = selfval.run(args.prop, args.root, args.evidence_dir)
         return rc
     except AnalysisError as e:
         print(f"ANALYSIS-ERROR property={args.prop}: {e}")
